@@ -842,6 +842,51 @@ class SRange:
         raise Unsupported("len(range(symbolic))")
 
 
+class SProduct:
+    """itertools.product over ranges of which at least one has a symbolic length: nested generic iterations (first factor outermost, as in itertools)."""
+
+    def __init__(self, its):
+        self.its = its
+
+    def __iter__(self):
+        def rec(k, acc):
+            if k == len(self.its):
+                yield tuple(acc)
+                return
+            for v in self.its[k]:
+                yield from rec(k + 1, acc + [v])
+        return rec(0, [])
+
+
+def sproduct(*its, **kw):
+    import itertools
+    if kw or not any(isinstance(i, SRange) for i in its):
+        return itertools.product(*its, **kw)
+    if not all(isinstance(i, (SRange, range)) for i in its):
+        raise Unsupported("product over symbolic ranges mixed with other iterables")
+    return SProduct(list(its))
+
+
+def senumerate(it, start=0):
+    """enumerate(product(range(a), range(b), ..)): the counter of the generic iteration is the mixed-radix number of the loop indices"""
+    if not isinstance(it, (SProduct, SRange)):
+        return enumerate(it, start)
+    if isinstance(it, SRange):
+        return ((S(tm.add(_t(start), _t(v))), v) for v in it)
+    for r in it.its:
+        if isinstance(r, range) and (r.start != 0 or r.step != 1):
+            raise Unsupported("enumerate(product(..)) over ranges that do not start at 0")
+
+    def gen():
+        lens = [r.n if isinstance(r, SRange) else tm.const(len(r)) for r in it.its]
+        for tup in it:
+            k = tm.const(0)
+            for v, n in zip(tup, lens):
+                k = tm.add(tm.mul(k, n), _t(v))
+            yield S(tm.add(_t(start), k)), tup
+    return gen()
+
+
 def slen(x):
     """len() that may return a symbolic extent for symbolic arrays."""
     if isinstance(x, SArr):
@@ -1338,7 +1383,11 @@ def mode_i(modules, extra_globals=None):
     for mod in modules:
         if isinstance(mod, str):
             mod = sys.modules[mod]
-        for attr, val in [("np", model), ("range", srange), ("len", slen)] + list((extra_globals or {}).items()):
+        base = [("np", model), ("range", srange), ("len", slen)]
+        if "product" in mod.__dict__:
+            base.append(("product", sproduct))              # from itertools import product
+            base.append(("enumerate", senumerate))
+        for attr, val in base + list((extra_globals or {}).items()):
             saved.append((mod, attr, mod.__dict__.get(attr, _MISSING)))
             setattr(mod, attr, val)
     try:
